@@ -7,6 +7,9 @@ use crate::run::{hash64, Job, JobResult, PropMeta, Violation};
 use serde_json::{json, Value};
 use std::collections::{BTreeMap, BTreeSet};
 
+/// partitions count that marks "create with a size limit below the segment size" (refused)
+pub const BAD_SIZE_MARK: u32 = 999;
+
 pub struct Layer {
     pub name: &'static str,
     pub prelude: Vec<COp>,
@@ -117,6 +120,8 @@ pub fn layers(with_invalid: bool) -> Vec<Layer> {
     if with_invalid {
         // a rename that is refused for another reason than its name
         v[1].alphabet.push(COp::UpdateTopic(n(1), n(1), st("www"), u64::MAX));
+        // a creation that is refused after its name and id were found free
+        v[1].alphabet.push(COp::CreateTopic(n(1), Some(3), st("vvv"), BAD_SIZE_MARK));
         v[3].alphabet.push(COp::DeleteUser(n(1)));
         v[3].alphabet.push(COp::SetPerms(n(1), 0));
         v[3].alphabet.push(COp::ChangePassword(n(2), st("wrong"), st("pw2")));
@@ -470,6 +475,7 @@ impl Model {
                     }
                 }
             },
+            COp::CreateTopic(_, _, _, parts) if *parts == BAD_SIZE_MARK => Expect::Refuse("a size limit below the segment size is not allowed".into()),
             COp::CreateTopic(stt, id, name, _) => {
                 let Some(sid) = self.sid(stt) else { return missing("stream") };
                 let stm = &self.streams[&sid];
